@@ -577,8 +577,11 @@ impl<TokenIter: Iterator<Item = Result<Token>>> Parser<TokenIter> {
                                             ));
                                         }
                                         let remained = DatumBody::Pair(pair).locate(location);
-                                        let expanded_datum =
+                                        let mut expanded_datum =
                                             transformer.transform(keyword, remained)?;
+                                        // the expansion stands where the macro use stood, not where
+                                        // the template was written
+                                        expanded_datum.location = location;
                                         Self::transform_to_statement(expanded_datum, syntax_env)?
                                     } else {
                                         Self::transform_procedure_call(
